@@ -98,7 +98,8 @@ const VALUE_NAMES: &[&str] = &["a", "b", "c", "f", "g", "x", "y"];
 const TYPE_NAMES: &[&str] = &["T", "U", "V", "Box"];
 const CTOR_NAMES: &[&str] = &["A", "B", "C", "Mk", "T", "U"];
 const LABELS: &[&str] = &["name", "size", "to", "with"];
-const MODULE_NAMES: &[&str] = &["m0", "m1", "dir/m2", "dir/sub/m3"];
+// the most imported module (index 0) has the deepest path: its accessor is the LAST segment
+const MODULE_NAMES: &[&str] = &["dir/sub/m0", "m1", "dir/m2", "m3"];
 const ALIASES: &[&str] = &["q0", "q1", "q2"];
 const TYVARS: &[&str] = &["a", "b", "t"];
 pub const HOLE_NAME: &str = "zzhole";
